@@ -1,5 +1,5 @@
 CONSTANTS
-  Pieces = {"A", "C", "G", "T", "U", "R", "Y", "S", "W", "K", "M", "B", "D", "H", "V", "N", "a", "y", "[AC]", "[CGT]", "[RT]", "[G]", "!A", "!C", "!Y", "![AC]", "A#", "C#", "N#", "W#", "[AG]#", "!A#", "![CT]#"}
+  Pieces = {"A", "C", "G", "T", "U", "R", "Y", "S", "W", "K", "M", "B", "D", "H", "V", "N", "a", "y", "[AC]", "[CGT]", "[RT]", "[G]", "!A", "!C", "!T", "!Y", "![AC]", "A#", "C#", "T#", "N#", "W#", "[AG]#", "!A#", "![CT]#"}
   MinP = 1  MaxP = 2
   Alpha = {0, 1, 2, 3, 4}
   MinS = 1  MaxS = 2
